@@ -283,3 +283,7 @@ def check(ctx):
             ctx.require_at("R01-g", stf, r, want[m], instance=f"status {m} is reported exactly in its state", what=f"return Status.{m}")
     for m in want:
         ctx.ob("R01-g", stf, f"status can report {m}", m in found, detail="" if m in found else f"TaskHandle.status never returns {m}", by=("return site",))
+
+    # ---- R01-h the cancellation classifier used while leaving scopes and task groups cannot fail or over-match ----------------------
+    from .common import classifier_total
+    classifier_total(ctx, "R01-h")
